@@ -6,6 +6,12 @@ import BpModel.Model.Wire
 import BpModel.Model.Expr
 import BpModel.Model.Lit
 import BpModel.Model.Front
+import BpModel.Model.Json
+import BpModel.Model.Names
+import BpModel.Model.Cli
+import BpModel.Model.Emit
+import BpModel.Model.Memo
+import BpModel.Model.Lint
 /-!
 # bpdrv — line-protocol driver for the executable model
 
@@ -183,6 +189,35 @@ def getTy (req : Json) (key : String := "ty") : Except String (Ty × Ty) := do
   let t ← tyOfJson tj
   pure (t, t.normalize)
 
+partial def jvalToJson : JVal → Json
+  | .num x => (x : Int)
+  | .bool b => b
+  | .arr xs => .arr (xs.map jvalToJson).toArray
+  | .obj kvs => Json.mkObj (kvs.map fun (k, v) => (toString k, jvalToJson v))
+
+partial def dOfJson (j : Json) : Except String C10.D := do
+  let id ← j.getObjValAs? Nat "id"
+  let cs ← j.getObjValAs? (Array Json) "children"
+  let cs ← cs.toList.mapM dOfJson
+  pure (.mk id cs)
+
+def langOf (l : String) : Names.Lang := if l == "py" then .py else if l == "go" then .go else .c
+def kindOf (k : String) : Names.Kind :=
+  if k == "enum" then .enum else if k == "alias" then .alias else if k == "constant" then .constant else .message
+
+/-- memo tie: ops `["set",k,v]` (ignored by the harness for frozen nodes), `["freeze",k]`, `["get",k]` -/
+def memoRun (ops : List (String × Nat × Int)) : List Int :=
+  let step := fun (st : (List (Nat × Int) × List Nat × C18.Memo Nat Int) × List Int) (op : String × Nat × Int) =>
+    let ((vals, frozen, memo), out) := st
+    let f := fun k => ((vals.find? (·.1 = k)).map (·.2)).getD 0
+    match op with
+    | ("set", k, v) => (((k, v) :: vals.filter (·.1 ≠ k), frozen, memo), out)
+    | ("freeze", k, _) => ((vals, k :: frozen, memo), out)
+    | (_, k, _) =>
+      let (v, memo') := memo.get f (fun k => frozen.contains k) k
+      ((vals, frozen, memo'), out ++ [v])
+  (ops.foldl step (([], [], {}), [])).2
+
 def handle (op : String) (req : Json) : Except String Json := do
   match op with
   | "echo" => pure (okJson req)
@@ -350,6 +385,62 @@ def handle (op : String) (req : Json) : Except String Json := do
     | .ok (.proto _ _ mem) => pure (Json.mkObj [("ok", .arr (entMsgs "" mem).toArray)])
     | .ok _ => pure (Json.mkObj [("ok", .arr #[])])
     | .error d => pure (Json.mkObj [("diag", Json.mkObj [("rule", d.rule), ("file", d.file), ("line", d.line)])])
+  | "names.def" =>
+    let l ← req.getObjValAs? String "lang"
+    let k ← req.getObjValAs? String "kind"
+    let pre ← req.getObjValAs? String "prefix"
+    let scopes ← req.getObjValAs? (Array String) "scopes"
+    let n ← req.getObjValAs? String "name"
+    pure (okJson (String.ofList (Names.defName (langOf l) (kindOf k) pre.toList (scopes.toList.map (·.toList)) n.toList)))
+  | "names.pascal" => pure (okJson (String.ofList (Names.pascalCase (← req.getObjValAs? String "s").toList)))
+  | "names.upper" => pure (okJson (String.ofList (Names.upperCase (← req.getObjValAs? String "s").toList)))
+  | "names.isupper" => pure (okJson (Names.pyIsUpper (← req.getObjValAs? String "s").toList))
+  | "lint.name" =>
+    let r ← req.getObjValAs? String "rule"
+    let n ← req.getObjValAs? String "name"
+    pure (okJson (if r == "upper" then C20.warnsUpper n.toList else C20.warnsPascal n.toList))
+  | "lint.enum0" => pure (okJson (C20.warnsEnumNoZero (← req.getObjValAs? (Array Nat) "values").toList))
+  | "json.render" =>
+    let (t0, t) ← getTy req
+    let v ← valOfJson t0 (← req.getObjVal? "val")
+    pure (okJson (jvalToJson (Spec.json t v)))
+  | "json.roundtrip" =>
+    let (t0, t) ← getTy req
+    let v ← valOfJson t0 (← req.getObjVal? "val")
+    match Spec.ofJson t (Spec.json t v) with
+    | some v' => pure (okJson (valToJson t v'))
+    | none => pure (Json.mkObj [("exc", "not-readable")])
+  | "cli.main" =>
+    let w ← req.getObjVal? "world"
+    let known ← w.getObjValAs? (Array String) "known"
+    let supO ← w.getObjValAs? (Array String) "supports_o"
+    let files ← w.getObjValAs? (Array String) "files"
+    let world : Cli.World := {
+      hasOtherError := (← w.getObjValAs? Bool "other_error"), hasExtensible := (← w.getObjValAs? Bool "has_ext"),
+      warnings := (← w.getObjValAs? Nat "warnings"), supportsO := fun l => supO.contains l, knownLang := fun l => known.contains l,
+      files := fun _ _ _ => files.toList }
+    let lang := match req.getObjValAs? String "lang" with | .ok l => some l | .error _ => none
+    let o : Cli.Opts := { lang := lang, check := (← req.getObjValAs? Bool "check"), optimize := (← req.getObjValAs? Bool "optimize"),
+                          filter := (← req.getObjValAs? (Array String) "filter").toList, quiet := (← req.getObjValAs? Bool "quiet") }
+    let r := Cli.main world o
+    pure (okJson (Json.mkObj [("exit", r.exit), ("written", .arr (r.written.map Json.str).toArray)]))
+  | "cli.emitted" =>
+    let names ← req.getObjValAs? (Array String) "messages"
+    let filter ← req.getObjValAs? (Array String) "filter"
+    pure (okJson (.arr ((Cli.emitted id id filter.toList names.toList).map Json.str).toArray))
+  | "emit.order" =>
+    let ds ← req.getObjValAs? (Array Json) "defs"
+    let ds ← ds.toList.mapM dOfJson
+    pure (okJson (.arr ((C10.emitAll ds).map fun (n : Nat) => (n : Json)).toArray))
+  | "memo.run" =>
+    let ops ← req.getObjValAs? (Array Json) "ops"
+    let ops ← ops.toList.mapM fun o => do
+      let a ← o.getArr?
+      if a.size < 2 then throw "memo op"
+      let k ← a[1]!.getNat?
+      let v := match a[2]? with | some j => (match j.getInt? with | .ok i => i | .error _ => 0) | none => 0
+      pure ((← a[0]!.getStr?), k, v)
+    pure (okJson (.arr ((memoRun ops).map fun (i : Int) => (i : Json)).toArray))
   | _ => .error s!"unknown op {op}"
 
 def handleLine (line : String) : Json :=
